@@ -66,6 +66,12 @@ mut("tree-marker-after-children", MAC, "        stack.push(Either::Right(Nesting
 mut("tree-parent-no-assign", MAC, "                __node = __temp;\n", "", ["C15"], note="found by the automut campaign: the Parent template no longer moves the cursor up")
 mut("append-ignores-error", IDR, """        self.checked_append(new_child, arena)
             .expect("Preconditions not met: invalid argument");""", """        let _ = self.checked_append(new_child, arena);""", ["C05"], note="the panicking wrapper swallows the refusal")
+mut("new-pub-link-writer", IDR, "    pub fn remove_subtree<T>(self, arena: &mut Arena<T>) {", """    /// Forgets the parent of this node.
+    pub fn orphan<T>(self, arena: &mut Arena<T>) {
+        arena[self].parent = None;
+    }
+
+    pub fn remove_subtree<T>(self, arena: &mut Arena<T>) {""", ["C01"], note="a new public mutator that writes a link outside the analysed operations")
 mut("tree-prune-nest", MAC, ".map(|last| last.kind == ActionKind::Parent)", ".map(|last| last.kind == ActionKind::Parent || last.kind == ActionKind::Nest)", ["C15"],
     note="the useless-action pruning also drops a trailing Nest")
 mut("rf-tree-rename-cursor", MAC, "        let mut __node: ::indextree::NodeId = __root_node;", "        let mut __cur: ::indextree::NodeId = __root_node;", [], silent=True,
